@@ -85,3 +85,27 @@ Theorem C19_connect_request_lines : forall host port cred,
              :: (str "Host: "%string ++ host) :: str "Proxy-Connection: keep-alive"%string :: str "Connection: keep-alive"%string
              :: match cred with Some c => [str "Proxy-Authorization:: Basic "%string ++ c; CRLF] | None => [CRLF] end).
 Proof. intros host port [c|]; reflexivity. Qed.
+
+(* the CONNECT request for a target URL through a proxy URL, both rendered from components: its first line names exactly
+   the lower-cased target host and the target's explicit-or-default port (80 for ws, 443 for wss); credentials are sent
+   iff the PROXY URL has a non-empty user name, and they are that URL's *)
+Theorem C19_connect_request_for_urls : forall pt pp, wf pt -> wf pp ->
+  exists ut up, parse_url (render pt) = Some ut /\ parse_url (render pp) = Some up /\
+    let cred := match proxy_user up with Some (us, pw) => Some (proxy_credentials us pw) | None => None end in
+    proxy_request (u_host ut) (ws_port ut) cred =
+    join CRLF ((str "CONNECT "%string ++ lower_s (p_host pt) ++ str ":"%string ++
+                decimal (effective_port (p_port pt) (bytes_eqb (lower_s (p_scheme pt)) (str "wss"%string))) ++ str " HTTP/1.1"%string)
+               :: (str "Host: "%string ++ lower_s (p_host pt)) :: str "Proxy-Connection: keep-alive"%string :: str "Connection: keep-alive"%string
+               :: match p_userinfo pp with
+                  | Some (x :: us, pw) => [str "Proxy-Authorization:: Basic "%string ++ proxy_credentials (x :: us) pw; CRLF]
+                  | _ => [CRLF]
+                  end).
+Proof.
+  intros pt pp Wt Wp.
+  destruct (ws_target_of_render pt Wt) as (ut & Et & Ht & Pt & _).
+  destruct (proxy_target_of_render pp Wp) as (up & Ep & _ & _ & _ & Up).
+  exists ut, up. split; [exact Et|]. split; [exact Ep|]. cbv zeta.
+  rewrite C19_connect_request_lines, Ht, Pt, Up.
+  destruct (p_userinfo pp) as [[[|x us] pw]|]; reflexivity.
+Qed.
+Print Assumptions C19_connect_request_for_urls.
